@@ -148,3 +148,24 @@ def any_frame(draw: Any, wire_only: bool = False) -> dict:
 
 def rssi() -> st.SearchStrategy[str]:
     return st.one_of(st.just("---"), st.just("..."), st.integers(0, 255).map(lambda n: f"{n:03d}"))
+
+
+# --- structured sub-protocol grid: OpenTherm (3220) ---------------------------------------------------------------------------------
+OT_VALUES = ("0000", "0001", "00FF", "0100", "7FFF", "8000", "8001", "9C40", "FF00", "FFFE", "FFFF", "1980")
+
+
+def opentherm_lines(id_lo: int = 0, id_hi: int = 256) -> list[str]:
+    """'045 <frame>' lines for every OpenTherm data-id in [id_lo, id_hi) x the 8 message types x boundary data values, parity bit set
+    correctly (an odd-parity frame is rejected before the value decoders are reached): RQs to and RPs from an OpenTherm bridge."""
+    out = []
+    for did in range(id_lo, id_hi):
+        for mt in range(8):
+            for val in OT_VALUES:
+                word = (mt << 28) | (did << 16) | int(val, 16)
+                b1 = (mt << 4) | (0x80 if bin(word).count("1") % 2 else 0)
+                pl = f"00{b1:02X}{did:02X}{val}"
+                if mt < 4:
+                    out.append(f"045 RQ --- 18:006402 10:048122 --:------ 3220 005 {pl}")
+                else:
+                    out.append(f"045 RP --- 10:048122 18:006402 --:------ 3220 005 {pl}")
+    return out
